@@ -322,3 +322,30 @@ PROPS['C02']['rule'] += (' Plus coverage-guided fuzzing (libFuzzer, ASan+UBSan):
                          'encodings of the must-hit values; 8 type-workers x 40k executions in quick, 48 x 3M in thorough (wall-clock ceiling ends a campaign, it never produces a verdict).')
 PROPS['C04']['rule'] += (' Plus coverage-guided differential fuzzing (libFuzzer): arbitrary byte strings decoded by the library and by the reference decoder, per destination type.')
 SETUP_EXTRA.append(lambda b: b.build_codec('curated', 1, fuzz=True))
+
+
+# Additions made during the sensitivity audit (DESIGN.md section 6), appended to the evidence wording.
+_ADDED = {
+    'C01': ' Also: the three Serializer/Deserializer forms rotate over the buffer kinds; an FdReader over a pipe fed in two bursts; 20-33 KB payloads for growable sequences; '
+           'values are written through a const reference.',
+    'C02': ' Also: Bounded<StreamReader> with limits near the input length; table types through call-counting readers (non-termination); after a failed read every bounded logical '
+           'buffer must hold an in-range size member; a bounded reader must not consume more of the wrapped reader than its limit.',
+    'C06': ' Also: the same capacity sweep of the REMAINING space of a writer that already holds one copy of the value; GetSize(x), change x in place, Write(x) through one Serializer object.',
+    'C09': ' Also: the trait on function signatures built from each pair (reference / rvalue / return / 4-5 argument forms) must agree with the trait on the pair; Protocol<A> admission is '
+           'probed with SFINAE and must equal the trait.',
+    'C10': ' Also: an 8th error per call index cycling through all 18 ErrorStatus codes; 9-13 KB payloads for growable integral sequences.',
+    'C11': ' Also: priors with an out-of-range logical-buffer size member; histories and final reads that use messages of a newer writer (deleted and unknown entries on the wire).',
+    'C12': ' Also: a 140-alternative Variant probed at indices 0, 1, 63, 126-129, 139; converting construction / assignment of Variant<bool,std::string> and Variant<bool,int,std::string>.',
+    'C13': ' Also: the aliasing assignment x = x.get(); comparisons on Entry/Entry, Optional/Entry and Optional<Optional<int>> operands; Result<E,bool> assignments in all state pairs.',
+    'C14': ' Also: a second interface bound in the same table (shared name prefix, re-used method names); handlers returning a reference to an argument; re-entrant dispatch of the same '
+           'method; tables with exactly one binding; integral call-site conversions; 64-bit-class selectors against 32-bit interfaces; nop::Status<T> returns with scripted errors.',
+    'C15': ' Also: nop::FileHandle values; multi-byte type tags at the tail of table entries; negative references; wrong type tags incl. 0 and 2^64-1; UniqueFileHandle over real descriptors incl. fd 0.',
+    'C17': ' Also: StreamWriter over a sink that accepts exactly C bytes; a BoundedWriter whose window is wider than the wrapped buffer.',
+    'C18': ' Also: Compute(std::string) / Compute(std::vector<signed char>); Compute(BlockReader(array)) at compile time; the empty name, a name starting with NUL, names of 63-254 bytes; method names that are '
+           'object-like macros while the interface is declared.',
+    'C19': ' Also: thread-owned writers padding with thread-specific values, FdWriter/FdReader traffic, a snapshot of all signal dispositions around every threaded run, GetErrorMessage() text stability, '
+           'GetInterfaceName() of two interfaces, ten ThreadLocal slot tags.',
+    'C20': ' Also: conversions used as initialisers of static constants; the library header is included before any other header.',
+}
+for _k, _v in _ADDED.items():
+    PROPS[_k]['rule'] += _v
